@@ -1044,6 +1044,14 @@ class Hist(Scenario):
             if unt & set(self.pending_initial_files()):
                 self.ops.append("stash:skipped-D70")
                 return
+        if not self.profile.get("stash_over_agent_deletion", True):
+            # finding D99: a stash round trip turns the zero-length mark of an agent's delete-only edit into a claim on the next line
+            for ent in reversed(self.log):
+                if ent[:2] == ["git", "commit"] or (ent[0] == "git" and len(ent) > 1 and ent[1] in ("reset", "checkout", "switch", "stash")):
+                    break
+                if ent[0] == "edit" and ent[2] != "human" and str(ent[3]).startswith("del"):
+                    self.ops.append("stash:skipped-D99")
+                    return
         self.report_human_edits()
         self.g(*args)
         self.ops.append("stash:push")
